@@ -436,6 +436,9 @@ def _run(ctx):
     ctx.clause("C13.5 the LogicalType union: field id <-> logical type id tables of parser and writer equal the specification's")
     from ..rules import logicaltype
     nlt = logicaltype.check(ctx)
+    nlp, lp_ok = logicaltype.params_roundtrip(ctx)
+    ctx.floor("C13 LogicalType parameter round trips", nlp, 20)
+    ctx.P.__dict__.setdefault("_memo", {})["logical_params_intact"] = lp_ok
     ctx.floor("C13 logical type table rows", nlt, 30)
 
     ctx.clause("C13.7 serialise-then-parse of FileMetaData and the page headers on an abstract fully populated object returns every serialised member in the member it came from")
@@ -937,4 +940,5 @@ def run(ctx):
     from .. import report
     probes = [o for o in ctx.obs if o.key.startswith(("spec|", "roundtrip|"))]
     decided = len(probes) >= 6 and not any(o.status == report.INCONCLUSIVE for o in probes)
-    ctx.count("extraction_gaps_settled_by_probe", thriftrt.settle_extraction(ctx, decided))
+    ctx.count("extraction_gaps_settled_by_probe", thriftrt.settle_extraction(
+        ctx, decided, logical_ok=ctx.P.__dict__.get("_memo", {}).get("logical_params_intact", False)))
